@@ -68,6 +68,8 @@ func checkC03(p *Prog, r *Report) {
 	ruleScan0(p, r)
 	ruleSubSec(p, r)
 	ruleEntryErr(p, r)
+	ruleNarrowV(p, r)
+	r.Floor("NARROWV", 3)
 	r.Floor("ENTRYERR", 1)
 	r.Floor("SUBSEC", 1)
 	r.Floor("SCAN0", 1)
